@@ -383,10 +383,14 @@ pub fn check(prop: &dyn Prop, tier: Tier, seed: u64) -> i32 {
     );
     let known = load_known(&verif_dir());
     let br = run_batch(prop, tier, seed, budget_s);
-    if !br.harness_errors.is_empty() {
-        for e in &br.harness_errors {
-            eprintln!("HARNESS-ERROR: {}", e);
-        }
+    // A harness error (failed positive control, layout drift) aborts the batch. If the cases that
+    // did complete already show a violation, that is the more informative verdict and is reported
+    // (exit 1) with the harness errors as notes; otherwise the check cannot judge (exit 2).
+    let had_harness_errors = !br.harness_errors.is_empty();
+    for e in &br.harness_errors {
+        eprintln!("HARNESS-ERROR: {}", e);
+    }
+    if had_harness_errors && !br.outcomes.values().any(|(_, o)| !o.violations.is_empty()) {
         return 2;
     }
 
@@ -451,8 +455,21 @@ pub fn check(prop: &dyn Prop, tier: Tier, seed: u64) -> i32 {
         }
         let case = &br.outcomes[idx].0;
         let (min_case, used) = minimise(prop, case, v, 120);
-        let path = write_replay(prop, seed, tier, &min_case, v, *idx);
-        if !replay_in_fresh_process(&path) {
+        let mut path = write_replay(prop, seed, tier, &min_case, v, *idx);
+        let mut reproduced = replay_in_fresh_process(&path);
+        if !reproduced && &min_case != case {
+            // Minimisation runs in this process. If the code under test keeps process-global state
+            // (a static table, a once-cell), a shortened schedule may only fail here because an
+            // earlier run already touched that state. The replay contract is a fresh process, so
+            // fall back to the schedule as first seen and demand that *it* reproduces.
+            println!(
+                "  note: the minimised schedule for class={} site={} fails only in a process that ran other schedules before; reporting the unminimised schedule",
+                v.class, v.site
+            );
+            path = write_replay(prop, seed, tier, case, v, *idx);
+            reproduced = replay_in_fresh_process(&path);
+        }
+        if !reproduced {
             eprintln!(
                 "HARNESS-ERROR: violation class={} site={} (case {}) did not reproduce from its replay file {}",
                 v.class, v.site, idx, path
@@ -549,6 +566,10 @@ pub fn check(prop: &dyn Prop, tier: Tier, seed: u64) -> i32 {
         known_lines.len(),
         br.wall_s
     );
+    if exit == 0 && had_harness_errors {
+        // only known findings were seen before the batch was aborted
+        return 2;
+    }
     if exit == 0 && !missing.is_empty() {
         eprintln!(
             "HARNESS-ERROR: required probes never fired: {:?} (workload or fault mix does not reach them)",
